@@ -244,6 +244,7 @@ def run_case(ctx, repo, case):
     spell = case["mode"]
     mode = R.canon(spell)
     repo.CALENDAR.set_mode(spell)
+    repo.scratch_for(case)
     try:
         if case["op"] == "year":
             y = case["year"]
